@@ -1,5 +1,6 @@
 /- Helper lemmas: the `splice` loop computes `take start ++ new ++ drop end` on the per-character view. -/
 import Curtsies.Model.FmtStr
+import Curtsies.Model.SpliceOp
 namespace Curtsies.Splice
 
 /-- Dropping the empty runs (`s for s in new_components if s.s`) does not change the cells. -/
@@ -135,5 +136,144 @@ theorem spliceLoop_cells_pending (new : List Chunk) (start e : Nat) (hse : start
         have htk : c.cells.take (start - b) = c.cells := List.take_of_length_le (by omega)
         rw [List.take_append, List.drop_append, hn, e1, e2, hd, htk]
         simp only [List.nil_append, List.append_assoc]
+
+/-- `Curtsies.splice` is the early return followed by `spliceBody`. -/
+theorem splice_eq_body (f new : FmtStr) (start : Nat) (eo : Option Nat) :
+    splice f new start eo =
+      if len new = 0 ∧ eo.getD start ≤ start then f else spliceBody f new start (eo.getD start) := by
+  unfold splice spliceBody
+  rfl
+
+theorem spliceBody_eq_finish (f new : FmtStr) (start e : Nat) :
+    spliceBody f new start e =
+      (spliceFinish new (spliceLoop new start e 0 false f)).filter fun c => !c.s.isEmpty := by
+  unfold spliceBody
+  simp only [spliceFinish]
+
+theorem spliceBody_cells (f new : FmtStr) (start e : Nat) (h : start ≤ e) :
+    cells (spliceBody f new start e) = (cells f).take start ++ cells new ++ (cells f).drop e := by
+  rw [spliceBody_eq_finish, cells_filter_nonempty]
+  simpa using spliceLoop_cells_pending new start e h f 0 (Nat.zero_le _)
+
+/-- The FmtStr an ESC-free operand converts to. -/
+def asFmt : Operand → FmtStr
+  | .str t => [⟨t, {}⟩]
+  | .fmt f => f
+
+theorem asFmt_cells (o : Operand) : cells (asFmt o) = o.cells := by
+  cases o <;> simp [asFmt, Operand.cells, plainCells, Chunk.cells]
+
+theorem asFmt_len (o : Operand) : len (asFmt o) = o.rawLen := by
+  cases o <;> simp [asFmt, Operand.rawLen]
+
+theorem hasEscBracket_infix {s : Text} (h : hasEscBracket s = true) : [ESC, '['] <:+: s := by
+  induction s with
+  | nil => simp [hasEscBracket] at h
+  | cons a r ih =>
+    cases r with
+    | nil => simp [hasEscBracket] at h
+    | cons b r =>
+      simp only [hasEscBracket, Bool.or_eq_true, Bool.and_eq_true, beq_iff_eq] at h
+      rcases h with ⟨rfl, rfl⟩ | h
+      · exact ⟨[], r, rfl⟩
+      · obtain ⟨x, y, hxy⟩ := ih h
+        exact ⟨a :: x, y, by simp [← hxy]⟩
+
+/-- `"\x1b[" in s` is false: `from_str` wraps the text verbatim in one unformatted run. -/
+theorem fromStr_noEsc (md : Nat) (t : Text) (h : hasEscBracket t = false) : fromStr md t = .ok [⟨t, {}⟩] := by
+  unfold fromStr
+  rw [h]; rfl
+
+/-- The model-level form of `Operand.EscFree`. -/
+def NoEsc : Operand → Prop
+  | .str t => hasEscBracket t = false
+  | .fmt _ => True
+
+theorem NoEsc_of_EscFree (o : Operand) (h : o.EscFree) : NoEsc o := by
+  cases o with
+  | fmt f => trivial
+  | str t =>
+    simp only [Operand.EscFree] at h
+    simp only [NoEsc]
+    cases hb : hasEscBracket t with
+    | false => rfl
+    | true => exact absurd (hasEscBracket_infix hb) h
+
+theorem toFmt_noEsc (md : Nat) (o : Operand) (h : NoEsc o) : o.toFmt md = .ok (asFmt o) := by
+  cases o with
+  | fmt f => rfl
+  | str t =>
+    simp only [NoEsc] at h
+    simp only [Operand.toFmt, fromStr_noEsc md t h, Except.map, asFmt]
+    rw [copyWithNewAtts_empty]
+
+/-- For an ESC-free operand the operand-level `splice` is the FmtStr-level `splice` on the converted operand. -/
+theorem spliceOp_noEsc (md : Nat) (f : FmtStr) (o : Operand) (start : Nat) (eo : Option Nat) (h : NoEsc o) :
+    spliceOp md f o start eo = .ok (splice f (asFmt o) start eo) := by
+  unfold spliceOp
+  rw [splice_eq_body, asFmt_len, toFmt_noEsc md o h]
+  by_cases hc : o.rawLen = 0 ∧ eo.getD start ≤ start
+  · rw [if_pos hc, if_pos hc]
+  · rw [if_neg hc, if_neg hc]
+
+theorem hasEscBracket_spaces (k : Nat) : hasEscBracket (spaces k) = false := by
+  induction k with
+  | zero => rfl
+  | succ k ih =>
+    cases k with
+    | zero => rfl
+    | succ k =>
+      simp only [spaces, List.replicate_succ] at ih ⊢
+      simp only [hasEscBracket, ih, Bool.or_false, Bool.and_eq_false_imp, beq_iff_eq]
+      intro h; exact absurd h (by decide)
+
+theorem hasEscBracket_spaces_append (k : Nat) (t : Text) : hasEscBracket (spaces k ++ t) = hasEscBracket t := by
+  induction k with
+  | zero => simp [spaces]
+  | succ k ih =>
+    have : spaces (k + 1) ++ t = ' ' :: (spaces k ++ t) := by simp [spaces, List.replicate_succ]
+    rw [this]
+    cases hr : spaces k ++ t with
+    | nil =>
+      have : t = [] := (List.append_eq_nil_iff.mp hr).2
+      simp [hasEscBracket, this]
+    | cons b r =>
+      rw [← ih, hr]
+      simp only [hasEscBracket]
+      have : (' ' == ESC) = false := by decide
+      simp [this]
+
+theorem hasEscBracket_append_spaces (t : Text) (k : Nat) : hasEscBracket (t ++ spaces k) = hasEscBracket t := by
+  induction t with
+  | nil => simp [hasEscBracket_spaces, hasEscBracket]
+  | cons a r ih =>
+    cases r with
+    | nil =>
+      cases k with
+      | zero => simp [spaces]
+      | succ k =>
+        have : [a] ++ spaces (k + 1) = a :: ' ' :: spaces k := by simp [spaces, List.replicate_succ]
+        rw [this]
+        have h2 : hasEscBracket (' ' :: spaces k) = false := by
+          have := hasEscBracket_spaces (k + 1)
+          simpa [spaces, List.replicate_succ] using this
+        have h3 : (' ' == '[') = false := by decide
+        simp [hasEscBracket, h2, h3]
+    | cons b r =>
+      have : (a :: b :: r) ++ spaces k = a :: b :: (r ++ spaces k) := rfl
+      rw [this]
+      simp only [hasEscBracket]
+      have ih' : hasEscBracket (b :: (r ++ spaces k)) = hasEscBracket (b :: r) := ih
+      rw [ih']
+
+theorem NoEsc_padLeft (k : Nat) (o : Operand) (h : NoEsc o) : NoEsc (padLeft k o) := by
+  cases o with
+  | fmt f => trivial
+  | str t => simpa only [NoEsc, padLeft, hasEscBracket_spaces_append] using h
+
+theorem NoEsc_padRight (k : Nat) (o : Operand) (h : NoEsc o) : NoEsc (padRight k o) := by
+  cases o with
+  | fmt f => trivial
+  | str t => simpa only [NoEsc, padRight, hasEscBracket_append_spaces] using h
 
 end Curtsies.Splice
